@@ -920,6 +920,7 @@ func (x *FnExec) instr(fr *frame, n *node, in ssa.Instruction) error {
 		v := x.value(fr, env, in.Value)
 		mt := in.Map.Type().Underlying().(*types.Map)
 		x.panicObl("nilmap", reach, not(eq(m.S, "nil")), "assignment to entry in nil map "+in.Map.Name(), in.Pos())
+		x.mapUpdateGuards(fr, n, in, mt, m, k, v)
 		{
 			_, mv, _, _, _ := x.mapHeaps(mt)
 			x.proveCellInv(fr, st, reach, mv, x.scalar(v), mt.Elem(), in.Pos())
@@ -1553,10 +1554,13 @@ func (x *FnExec) storeGuards(fr *frame, n *node, in *ssa.Store, a *Addr, v Val) 
 		if !x.eng.guardMatchesField(g, a.Heap) {
 			continue
 		}
+		if g.In != "" && !strings.HasSuffix(funcKey(x.top), "."+g.In) && !strings.HasSuffix(funcKey(fr.fn), "."+g.In) {
+			continue
+		}
 		if len(x.props) > 0 && len(g.Props) > 0 && !anyCommon(x.props, g.Props) && x.eng.filterProp != "" {
 			continue
 		}
-		ctx := &evalCtx{env: n.env, st: n.st, old: fr.oldState, block: n.b, extra: map[string]Val{
+		ctx := &evalCtx{env: n.env, st: n.st, old: fr.oldState, block: n.b, at: in, extra: map[string]Val{
 			"target": {S: a.Base, T: types.NewPointer(structTypeOfHeap(x, a))},
 			"value":  {S: x.scalar(v), T: a.T},
 		}}
@@ -1677,4 +1681,27 @@ func loopHasCallMatching(li *loopInfo, pattern string) bool {
 		}
 	}
 	return false
+}
+
+// mapUpdateGuards: effect guards on map writes: `guard mapupdate <KeyTypeName> [in F]: expr` over key, value, target.
+func (x *FnExec) mapUpdateGuards(fr *frame, n *node, in *ssa.MapUpdate, mt *types.Map, m, k, v Val) {
+	keyName := types.TypeString(mt.Key(), func(*types.Package) string { return "" })
+	for _, g := range x.eng.specs.Guards {
+		if g.Kind != "mapupdate" || (g.Target != "*" && g.Target != keyName) {
+			continue
+		}
+		if g.In != "" && !strings.HasSuffix(funcKey(x.top), "."+g.In) && !strings.HasSuffix(funcKey(fr.fn), "."+g.In) {
+			continue
+		}
+		ctx := &evalCtx{env: n.env, st: n.st, old: fr.oldState, block: n.b, at: in, extra: map[string]Val{
+			"target": {S: m.S, T: in.Map.Type()}, "key": {S: x.scalar(k), T: mt.Key()}, "value": {S: x.scalar(v), T: mt.Elem()}}}
+		goal, err := x.evalBool(fr, g.Expr, ctx)
+		if err != nil {
+			x.errf("guard mapupdate %s in %s: %v", g.Target, funcKey(fr.fn), err)
+			continue
+		}
+		o := x.addObl("guard", "mapupdate:"+g.Target, n.reach, goal, "guard mapupdate "+g.Target+": "+g.Src, in.Pos())
+		o.Props = g.Props
+		g.Hits++
+	}
 }
